@@ -133,6 +133,8 @@ class Sess:
         if 'forged-for-identity-key' in self.notes:
             fl = ['identity-public-key-forgery']       # whatever else was altered, the key is the identity
         fl += sorted(n for n in self.notes if n.startswith('coordinated-'))
+        if 'forged-for-order-two-key' in self.notes:
+            fl = ['order-two-off-curve-key-forgery']
         if 'forged-with-identity-ephemeral' in self.notes:
             fl = ['identity-ephemeral-forgery'] + [f for f in fl if not f.startswith('forge:')]
         return fl
@@ -322,7 +324,8 @@ def o_ecdsa(s, ctx, v, out):
     Q = cv.decode_uncompressed(unhex(s.m['pk']['val']))
     r, ss = sint(s.m['r']['val']), sint(s.m['s']['val'])
     msg = s.m['msg']['sent']
-    digest = hashlib.sha256(msg).digest() if s.opts.get('hash') == '0' else msg
+    pre = s.opts.get('hash') != '0' or 'forged-for-order-two-key' in s.notes
+    digest = msg if pre else hashlib.sha256(msg).digest()
     exp = models.ecdsa_verify(cv, Q, digest, r, ss)
     out.evals += 1
     out.keys.add(('ecdsa', tuple(s.faults()), got, exp, s.opts.get('hash'), min(len(msg), 70)))
@@ -574,7 +577,8 @@ def hopts(rng):
 
 SCHEMES.update({
     'ecdsa': Spec('C05', 4, dict(pk='ec', r='bn', s='bn', msg='bytes'), o_ecdsa, weight=14,
-                  opts=lambda rng: dict(hash=rng.below(2), dup=rng.below(2)), extra_faults=[('forge', 'v_forgeinf')]),
+                  opts=lambda rng: dict(hash=rng.below(2), dup=rng.below(2), cls=1 if rng.chance(0.3) else 0),
+                  extra_faults=[('forge', 'v_forgeinf'), ('forge', 'v_forgeord2')]),
     # x-only Schnorr: (e, n - s) under -Q is itself a valid triple
     'ecss': Spec('C05', 4, dict(pk='ec', e='bn', s='bn', msg='bytes'),
                  generic_sig_oracle(ok_malleations=(('pk:v_neg', 's:v_negmod'),))),
